@@ -1479,7 +1479,17 @@ class Engine:
             if pth[0] not in names and not any(pth[: len(d)] == d for d in dotted)]
         if bad:
             raise Unsupported(f"abstracted statement at line {self.line(stmt)} also writes {sorted(set(bad))}")
-        for node in ast.walk(stmt):
+        def own_nodes(n):
+            # the statement's own nodes: the bodies of nested function definitions run when those are called, not here
+            yield n
+            for ch in ast.iter_child_nodes(n):
+                if isinstance(ch, (ast.FunctionDef, ast.AsyncFunctionDef, ast.Lambda)):
+                    if isinstance(ch, ast.FunctionDef) and ch.name not in names:
+                        raise Unsupported(f"abstracted statement at line {self.line(stmt)} also defines {ch.name}")
+                    continue
+                yield from own_nodes(ch)
+
+        for node in own_nodes(stmt):
             if isinstance(node, (ast.Return, ast.Raise, ast.Yield, ast.YieldFrom, ast.Break, ast.Continue)):
                 raise Unsupported(f"abstracted statement at line {self.line(stmt)} changes control flow")
         for n in names:
